@@ -49,6 +49,7 @@ MANIFEST = {
         " Also decided: no for-loop variable of these modules is read after its loop (statement left one indentation level too shallow)."
         " Also decided: no str-Enum value is tested by identity (plain strings are accepted for these enums)."
         " Also decided: no closure created in a loop keeps the loop variable by reference (late binding)."
+        " Also decided: no per-job / per-operation feature is accumulated while walking operations_by_machine (a flexible operation is listed under each of its machines)."
     ),
     "note": "Reset-time re-initialisation of each feature observer is C12's R12.a/R12.b.",
     "technique": "sibling-loop agreement + constructor path linearisation + registry table check + typed accessor lint",
@@ -72,6 +73,9 @@ def run(ctx):
     from .common import check_loop_variable_leaks
 
     check_loop_variable_leaks(ctx, "R11.f", ("job_shop_lib.dispatching.feature_observers",), "the feature-observer")
+    from .common import check_per_machine_double_count
+
+    ctx.attempt(check_per_machine_double_count, ctx, "R11.i", ("job_shop_lib.dispatching.feature_observers",), "the feature observers")
     for rid, txt in (
         ("R11.a", "composite: same observer order and nesting for features and column names; axis-1 concatenation; components read afresh each call"),
         ("R11.b", "observers whose update reads another observer acquired it before subscribing"),
@@ -114,26 +118,53 @@ def run(ctx):
     # component replaces its array (DurationObserver on reset, nested
     # composites on every update)
     early_stale = []
-    for m in comp.methods.values():
-        if m is init_f:
+    for m0 in comp.methods.values():
+        if m0 is init_f:
             continue
+        # with the private helpers it delegates to written out (a layout /
+        # index computed by a helper and stored by the constructor)
+        try:
+            m = ctx.norm.flat(m0, depth=3)
+        except AnalysisError:
+            m = m0
         for lp in own_nodes(m.node):
             if not (isinstance(lp, ast.For) and ast.unparse(lp.iter).replace(" ", "").endswith((".features.items()", ".features.values()"))):
                 continue
             tv = [x.id for x in ast.walk(lp.target) if isinstance(x, ast.Name)]
+            # the loop variable that holds the array (items(): the second one)
+            arr = tv[-1:] if ast.unparse(lp.iter).replace(" ", "").endswith(".items()") and len(tv) > 1 else tv
             for n in ast.walk(lp):
                 tgt = val = None
                 if isinstance(n, ast.Call) and isinstance(n.func, ast.Attribute) and n.func.attr in ("append", "extend", "add") and n.args:
                     tgt, val = n.func.value, n.args[0]
                 elif isinstance(n, ast.Assign) and isinstance(n.targets[0], ast.Subscript):
                     tgt, val = n.targets[0].value, n.value
-                if tgt is None or not (isinstance(val, ast.Name) and val.id in tv):
+                if tgt is None or val is None:
+                    continue
+                # the array itself is stored (bare, or inside a tuple / list /
+                # dict entry) - not a number computed from it
+                stored = isinstance(val, ast.Name) and val.id in tv or (
+                    isinstance(val, (ast.Tuple, ast.List)) and any(isinstance(e, ast.Name) and e.id in arr for e in val.elts)
+                )
+                if not stored:
                     continue
                 root = tgt
                 while isinstance(root, (ast.Subscript, ast.Attribute)) and not (isinstance(root, ast.Attribute) and isinstance(root.value, ast.Name) and root.value.id == "self"):
                     root = root.value
                 if isinstance(root, ast.Attribute) and isinstance(root.value, ast.Name) and root.value.id == "self" and root.attr not in ("features", "column_names"):
-                    early_stale.append((m, n, root.attr))
+                    early_stale.append((m0, n, root.attr))
+                elif isinstance(root, ast.Name):
+                    # a local container that the method then stores on the composite
+                    for st in own_nodes(m.node):
+                        if not isinstance(st, (ast.Assign, ast.AnnAssign)) or st.value is None:
+                            continue
+                        for t in (st.targets if isinstance(st, ast.Assign) else [st.target]):
+                            if (
+                                isinstance(t, ast.Attribute) and isinstance(t.value, ast.Name) and t.value.id == "self"
+                                and t.attr not in ("features", "column_names")
+                                and any(isinstance(x, ast.Name) and x.id == root.id for x in ast.walk(st.value))
+                            ):
+                                early_stale.append((m0, n, t.attr))
     for m, n, attr in early_stale[:1]:
         chk.violation(
             "R11.a", m, n,
